@@ -6,6 +6,7 @@ import (
 
 	"github.com/nuetzliches/hookaido/internal/verifkit/qcheck"
 	"github.com/nuetzliches/hookaido/internal/verifkit/qmodel"
+	"github.com/nuetzliches/hookaido/internal/verifkit/qsys"
 	"github.com/nuetzliches/hookaido/internal/verifkit/runner"
 )
 
@@ -20,9 +21,9 @@ func alpha(r *runner.Run) qcheck.Alpha {
 		Operator:  []string{"cancel", "requeue", "resume", "rqdead", "deldead"},
 		FilterOps: []string{"cancelf", "requeuef", "resumef"},
 		Filters: []qmodel.Filter{{}, {Route: "/r1", Limit: 1}, {State: qmodel.Dead}, {State: qmodel.Queued, Preview: true}, {Target: "t1", Limit: -1},
-			{Before: -1}, {State: "bogus"}},
+			{Before: -1}, {State: "bogus"}, {Before: qsys.T0}, {Before: qsys.T0 + 1}, {Before: qsys.T0 + int64(sec)}},
 		Reads: []string{"list", "listdead", "stats", "lookup"},
-		Lists: []qmodel.ListSpec{{Order: "asc"}, {Limit: 1}, {Route: "/r1", State: qmodel.Queued, Order: " DESC "}, {Order: "sideways"}, {Before: -1, Limit: 2}, {Target: "t1", Order: "asc", Limit: 1001}},
+		Lists: []qmodel.ListSpec{{Order: "asc"}, {Limit: 1}, {Route: "/r1", State: qmodel.Queued, Order: " DESC "}, {Order: "sideways"}, {Before: -1, Limit: 2}, {Before: qsys.T0, Order: "asc"}, {Before: qsys.T0 + 1}, {Before: qsys.T0 + int64(sec), Limit: 1}, {Target: "t1", Order: "asc", Limit: 1001}},
 		Ticks: []time.Duration{sec, 2 * sec, 10 * sec},
 	}
 	return a
